@@ -1,3 +1,3 @@
 SPECIFICATION Spec
-INVARIANTS C16_Terminates C16_NeverSelf C16_ConfiguredWhenHealthy C16_AncestorOrMaster C16_NearestHealthy C16_GuardedMove C16_MoveNeverSelf C16_NeverListed C16_NeverPromoted
+INVARIANTS C16_Terminates C16_NeverSelf C16_ConfiguredWhenHealthy C16_AncestorOrMaster C16_NearestHealthy C16_GuardedMove C16_MoveNeverSelf C16_NeverListed C16_NeverPromoted C16_DeadCascadeNotCounted
 CHECK_DEADLOCK FALSE
